@@ -249,58 +249,56 @@ def t4(ctx, facts):
             r.check(bad is None, "%s[%s]" % (kind, geom.name(a)),
                     "%s between tables wrong for pair (%s,%s): %s" % (kind, geom.name(a), geom.name(bad[1]) if bad else "", bad),
                     what="%s tables for all 64 partners of %s" % (kind, geom.name(a)))
-    # readers
-    pe = PathEval(facts)
-    b = Builder(facts)
-    sort = facts.fns.get("owlchess::between::sort")
-    if sort is None:
-        r.anchor_missing("owlchess::between::sort")
-    else:
-        ok = True
-        got = []
-        src = ("param", 1, sort.body.names.get(1, "_1"))
-        dst = ("param", 2, sort.body.names.get(2, "_2"))
-        for p in pe.enumerate_paths(sort.body):
-            res = pe.run(sort.body, p)
-            if res.end != "ret":
-                continue
-            cond = [(N(c[0]), c[1]) for c in res.conds]
-            got.append((cond, N(res.ret)))
-        want_lt = ("bin", "Lt", src, dst)
-        for cond, ret in got:
-            if len(cond) != 1 or cond[0][0] != want_lt:
-                ok = False
-                continue
-            lt_true = cond[0][1] is None  # took the "else" (non-zero) edge => src < dst
-            want = ("agg", "tuple", "", (src, dst) if lt_true else (dst, src))
-            if ret != want:
-                ok = False
-        r.check(ok and len(got) == 2, "between::sort", "between::sort does not return (min, max) by index: %s"
-                % [(c, show(x)) for c, x in got], site=ctx.site(sort), what="between::sort returns (min,max)")
-    for kind in ("bishop", "rook"):
-        K = kind.upper()
+    # readers: evaluated on all 64x64 pairs (exhaustive constant propagation over their effect trees; shape-independent)
+    from .fx import FxBuilder
+    from .teval import TreeEval, Unsupported, Panic
+    for kind, dirs in (("bishop", geom.BISHOP_DIRS), ("rook", geom.ROOK_DIRS)):
         fn = facts.fns.get("owlchess::between::%s_strict" % kind)
         if fn is None:
             r.anchor_missing("owlchess::between::%s_strict" % kind)
         else:
-            e = N(b.place(fn.body, {"l": 0, "p": []}))
-            s = ("call", "owlchess::between::sort", (("param", 1, fn.body.names.get(1)), ("param", 2, fn.body.names.get(2))))
-            from .expr import norm_bin
-            want = norm_bin("BitAnd", ("tbl", ("named", "owlchess::between::%s_GT" % K), ("field", s, "#0")),
-                            ("tbl", ("named", "owlchess::between::%s_LT" % K), ("field", s, "#1")))
-            r.check(e == want, "between::%s_strict" % kind, "%s_strict is not GT[min] & LT[max]: %s" % (kind, show(e)),
-                    site=ctx.site(fn), what="%s_strict = %s_GT[min] & %s_LT[max]" % (kind, K, K))
+            tree = FxBuilder(facts).tree(fn, env=[("sym", "S"), ("sym", "D")])
+            te = TreeEval(facts)
+            bad = None
+            n = 0
+            try:
+                for a in range(64):
+                    for b_ in range(64):
+                        if not geom.aligned(a, b_, dirs):
+                            continue          # unspecified on unaligned pairs (rule B shows they are never asked)
+                        res = te.run(tree, {"S": a, "D": b_})
+                        n += 1
+                        if res is None or res[1] != geom.between(a, b_, dirs):
+                            bad = (a, b_, res[1] if res else None)
+                            break
+                    if bad:
+                        break
+            except (Unsupported, Panic) as e:
+                bad = (-1, -1, "not evaluable: %r" % (e,))
+            r.check(bad is None, "between::%s_strict" % kind, "%s_strict(%s, %s) = %s, expected the squares strictly between" % (
+                (kind, geom.name(bad[0]) if bad and bad[0] >= 0 else "?", geom.name(bad[1]) if bad and bad[1] >= 0 else "?", bad[2]) if bad else (kind, "", "", "")),
+                site=ctx.site(fn), what="%s_strict on all %d aligned pairs" % (kind, n))
         fn = facts.fns.get("owlchess::between::is_%s_valid" % kind)
         if fn is None:
             r.anchor_missing("owlchess::between::is_%s_valid" % kind)
         else:
-            e = N(b.place(fn.body, {"l": 0, "p": []}))
-            want = ("bin", "Ne", ("bin", "BitAnd", ("bin", "Shr", ("tbl", ("named", "owlchess::between::%s_NE" % K),
-                                                                   ("param", 1, fn.body.names.get(1))),
-                                                    ("param", 2, fn.body.names.get(2))), ("const", 1, "u64")),
-                    ("const", 0, "u64"))
-            r.check(e == want, "between::is_%s_valid" % kind, "is_%s_valid is not NE[src].has(dst): %s" % (kind, show(e)),
-                    site=ctx.site(fn), what="is_%s_valid = %s_NE[src].has(dst)" % (kind, K))
+            tree = FxBuilder(facts).tree(fn, env=[("sym", "S"), ("sym", "D")])
+            te = TreeEval(facts)
+            bad = None
+            try:
+                for a in range(64):
+                    for b_ in range(64):
+                        res = te.run(tree, {"S": a, "D": b_})
+                        if res is None or bool(res[1]) != geom.aligned(a, b_, dirs):
+                            bad = (a, b_, res[1] if res else None)
+                            break
+                    if bad:
+                        break
+            except (Unsupported, Panic) as e:
+                bad = (-1, -1, "not evaluable: %r" % (e,))
+            r.check(bad is None, "between::is_%s_valid" % kind, "is_%s_valid(%s, %s) = %s, expected the alignment predicate" % (
+                (kind, geom.name(bad[0]) if bad and bad[0] >= 0 else "?", geom.name(bad[1]) if bad and bad[1] >= 0 else "?", bad[2]) if bad else (kind, "", "", "")),
+                site=ctx.site(fn), what="is_%s_valid on all 4096 pairs" % kind)
 
 
 # ------------------------------------------------------------------------------------------ B
